@@ -83,36 +83,50 @@ def runCx (c : Case) : Res :=
       for (n, v) in c.obs do
         if (v.headD "").startsWith "panic" then bad := s!"{n}=panic:{v}" :: bad
       -- ---------- what the property demands of library-produced results
-      if expect == "certified" || expect == "valid123" then
+      -- expect=certified  : valid123 + sphere + convex + gpdt + provenance (C01)
+      -- expect=valid123   : L1–L3 at guarantee g (with completion-time links)
+      -- expect=state      : bootstrap (no cells, ≤ D vertices) or valid123 (C02/C06)
+      -- expect=valid12m   : L1, L2 + combinatorial manifold invariants (after flips, C07)
+      -- flags sphere=1 convex=1 gpdt=1 prov=1 add the corresponding demands
+      let certified := expect == "certified"
+      let flag (k : String) : Bool := certified || c.arg k == "1"
+      let comb := (J.l3parts.filter (fun p => p.1 != "geomOrient" && p.1 != "ridgeLinks" && p.1 != "vertexLinksStrict"))
+      let combOk := comb.all (·.2)
+      let bootstrap := K.cells.isEmpty && K.verts.length ≤ K.D
+      if expect == "state" && K.cells.isEmpty && !bootstrap then
+        bad := s!"no cells although {K.verts.length} > D vertices are stored (neither bootstrap nor a triangulation)" :: bad
+      if certified || expect == "valid123" || (expect == "state" && !bootstrap) then
         if !J.l1 then bad := "result fails Level 1 (element validity) on independent recomputation" :: bad
         if !J.l2 then bad := "result fails Level 2 (structure) on independent recomputation" :: bad
         if J.l1 && J.l2 && !J.l3c && !J.orientBand then
           let failing := (J.l3parts.filter (fun p => !p.2)).map (·.1)
           bad := s!"result fails Level 3 (topology, g={g}): {failing} completionLinks={J.l3c}" :: bad
-      -- after flips (C07) only the combinatorial part of Level 3 is demanded
-      let comb := (J.l3parts.filter (fun p => p.1 != "geomOrient" && p.1 != "ridgeLinks" && p.1 != "vertexLinksStrict"))
-      let combOk := comb.all (·.2)
+      if expect == "state" && bootstrap && !J.l1 then
+        bad := "bootstrap state fails Level 1 (element validity)" :: bad
       if expect == "valid12m" then
         if !J.l1 then bad := "state fails Level 1 (element validity) on independent recomputation" :: bad
         if !J.l2 then bad := "state fails Level 2 (structure) on independent recomputation" :: bad
         if J.l1 && J.l2 && !combOk then
           bad := s!"state violates combinatorial manifold invariants: {(comb.filter (fun p => !p.2)).map (·.1)}" :: bad
-      if expect == "certified" then
+      if flag "sphere" then
         for v in strict.take 3 do
           bad := s!"sphere-violation D={K.D} cell={v.cell} vertex={v.vert} nbrApex={v.nbrApex} in a result reported Ok" :: bad
+      if flag "convex" then
         for (cid, i, vid) in J.convex.take 3 do
           bad := s!"convexity-violation D={K.D} cell={cid} slot={i} vertex={vid} strictly beyond a boundary facet" :: bad
+      if flag "prov" then
         -- provenance of vertices and counts
         let (pv, npert) := vertexProvenance c X
         for m in pv.take 3 do bad := m :: bad
         if npert > 0 then stats := "cx.perturbed" :: stats
-        match (c.ob1 "nverts").toNat? with
-        | some n => if n != K.verts.length then bad := s!"number_of_vertices()={n} but {K.verts.length} vertices are stored" :: bad
-        | none => pure ()
-        match c.ob "stats" with
-        | some (ins :: _) =>
-          if ins.toNat? != some K.verts.length then bad := s!"statistics report inserted={ins} but {K.verts.length} vertices are present" :: bad
-        | _ => pure ()
+      match (c.ob1 "nverts").toNat? with
+      | some n => if n != K.verts.length then bad := s!"number_of_vertices()={n} but {K.verts.length} vertices are stored" :: bad
+      | none => pure ()
+      match c.ob "stats" with
+      | some (ins :: _) =>
+        if ins.toNat? != some K.verts.length then bad := s!"statistics report inserted={ins} but {K.verts.length} vertices are present" :: bad
+      | _ => pure ()
+      if flag "gpdt" then
         -- general position: the result must be THE Delaunay triangulation.  (If some exact
         -- violation exists it is reported above when it is strict; inside the band no claim.)
         let vp := vertPts K (minExp (allPts K))
@@ -122,6 +136,11 @@ def runCx (c : Case) : Res :=
             stats := "cx.gp.checked" :: stats
             if !sameCellSet K (bruteDT K.D vp) then
               bad := s!"general-position result differs from the brute-force Delaunay cell set (D={K.D}, n={vp.length})" :: bad
+      -- harness-side observations that must simply be 1 (computed on the Rust side from fingerprints)
+      for n in ["unchanged", "vertices_kept", "key_resolves", "one_added", "removed_gone", "same_vertices", "roundtrip_equal"] do
+        match c.ob n with
+        | some (v :: rest) => if v != "1" then bad := s!"{n}={v} {" ".intercalate rest}" :: bad
+        | _ => pure ()
       -- ---------- validators vs independent recomputation (C05)
       match obOk c "l1" with
       | some b => if b != J.l1 then bad := s!"Level-1 element validators say {boolTok b}, recomputation says {boolTok J.l1}" :: bad
